@@ -34,3 +34,22 @@ End Spec.
 
 Definition all_lines (n : N) : bool := true.
 Definition sast_targets (results : list result) (n : N) : bool := mem_N n (start_lines results).
+
+(** ** the property's own words for the SAST class: "edit only ... lines that carry a finding".
+    This is an upper bound on the edits, not a prescription of which carrying lines must be edited.  A line CARRIES a
+    finding when a location of a result handed to the pipeline contains it (start.line <= n <= end.line) or starts on it.
+    The code targets the START lines only ([sast_targets]), a subset of the carrying lines; for a finding that spans
+    several lines the later lines carry it too but are left alone, which the text allows (edits are still only on
+    carrying lines).  [admissible] is the text's reading: same number of lines, every line either identical or a
+    candidate line replaced by its substitution. *)
+Definition carries (results : list result) (n : N) : bool :=
+  existsb (fun r => existsb (fun l => loc_contains n l || (fst l =? n)%N) (r_locs r)) results.
+
+Fixpoint admissible_from (sub : str -> str) (cand : N -> bool) (k : N) (lines upd : list str) : bool :=
+  match lines, upd with
+  | [], [] => true
+  | l :: ls, u :: us => (str_eqb u l || (cand k && str_eqb u (sub l))) && admissible_from sub cand (k + 1) ls us
+  | _, _ => false
+  end.
+Definition admissible (sub : str -> str) (cand : N -> bool) (lines upd : list str) : bool :=
+  admissible_from sub cand 1 lines upd.
